@@ -132,6 +132,14 @@ def minimise_scenario(mod, scn):
     small["observed"] = {"detail": v[1] if v else scn.get("detail")}
     small["minimised_from"] = orig_size
     small.pop("detail", None)
+    # kept so that the parent can fall back to the unminimised scenario when the minimised one
+    # sits on an interpreter-dependent threshold (e.g. recursion depth) and does not reproduce
+    orig = dict(scn)
+    orig["property"] = mod.PROPERTY
+    orig["observed"] = {"detail": scn.get("detail")}
+    orig.pop("detail", None)
+    orig["minimised_from"] = "not minimised (the minimised form did not reproduce in a fresh interpreter)"
+    small["_original"] = orig
     return small
 
 
@@ -295,6 +303,7 @@ def run_check(mod, tier, base_seed, budget_s=None, quiet=False):
     reported = {}
     exit_code = 0
     for scn in total.violations:
+        original = scn.pop("_original", None)
         key = core.digest({k: v for k, v in scn.items() if k not in ("seed", "observed", "minimised_from", "note")})
         if key in reported:
             continue
@@ -307,6 +316,10 @@ def run_check(mod, tier, base_seed, budget_s=None, quiet=False):
             break
         path = write_replay(mod, scn, len(reported))
         ok, proc = confirm_fresh(path)
+        if not ok and original is not None:
+            scn = original
+            path = write_replay(mod, scn, len(reported))
+            ok, proc = confirm_fresh(path)
         if not ok:
             harness_error = (
                 f"replay {path} did not reproduce in a fresh interpreter "
